@@ -128,6 +128,9 @@ def i123(chk, repo, g):
         for n in ast.walk(tos.node):
             if isinstance(n, ast.DictComp) and isinstance(n.value, ast.Dict):
                 keys = {const_str(k) for k in n.value.keys}
+        if not keys:
+            # built some other way (dict(offset=..), a loop): whether read_chunk can be called with it is decided by the model loads (C11-I9)
+            raise AnalysisError(f"{mod.relpath}:to_offset_size: the chunk info is not a dict literal; its keys are decided by evaluating a load")
         chk.require(keys == set(params[1:]), "C11-I3", f"{mod.relpath}:to_offset_size", f"chunk info keys {sorted(keys)} == read_chunk parameters {params[1:]}",
                     f"to_offset_size produces keys {sorted(keys)} but read_chunk(f, **chunk_info) expects {params[1:]}", key="to_offset_size:keys")
 
